@@ -193,9 +193,60 @@ func (s *genState) request() Hop {
 	return h
 }
 
+// steadyHistory: a client that keeps using its session at intervals shorter
+// than SessionExpiry for longer than SessionExpiry (and than the ID's
+// lifetime), mostly reading, while the session is evicted, purged and reloaded
+// in between and other clients come and go.
+func steadyHistory(g *rand.Rand, s *genState, h *History) {
+	e := pickDur(g, 10*sec, 60*sec, 3600*sec)
+	s.cfg.Expiry = e
+	if g.IntN(2) == 0 {
+		s.cfg.MaxCache = []int{-1, 1, 2, 100}[g.IntN(4)]
+	}
+	h.Cfg = s.cfg
+	rounds := 5 + g.IntN(10)
+	addr, agent := s.addrFor(0), s.agentFor(0)
+	h.Steps = append(h.Steps, Hop{Kind: "req", Client: 0, Create: true, Addr: addr, Agent: agent, Script: []Sop{{Op: "set", K: 0, V: 7}}})
+	for i := 0; i < rounds; i++ {
+		frac := int64(30 + g.IntN(65))
+		d := e / 100 * frac
+		h.Steps = append(h.Steps, Hop{Kind: "wait", D: d})
+		switch g.IntN(8) {
+		case 0, 1:
+			h.Steps = append(h.Steps, Hop{Kind: "purge"})
+		case 2:
+			c := 1 + g.IntN(3)
+			h.Steps = append(h.Steps, Hop{Kind: "req", Client: c, Create: true, Addr: s.addrFor(c), Agent: s.agentFor(c), Script: s.script()})
+		case 3:
+			c := 1 + g.IntN(3)
+			h.Steps = append(h.Steps, Hop{Kind: "req", Client: c, Create: true, Addr: s.addrFor(c), Agent: s.agentFor(c)})
+			c = 1 + g.IntN(3)
+			h.Steps = append(h.Steps, Hop{Kind: "req", Client: c, Create: true, Addr: s.addrFor(c), Agent: s.agentFor(c)})
+		case 4:
+			if g.IntN(3) == 0 {
+				h.Steps = append(h.Steps, Hop{Kind: "restart"})
+			}
+		}
+		var script []Sop
+		switch g.IntN(6) {
+		case 0:
+			script = []Sop{{Op: "set", K: g.IntN(3), V: g.IntN(50)}}
+		case 1:
+			script = []Sop{{Op: "get", K: 0}, {Op: "get", K: 1}}
+		case 2:
+			script = []Sop{{Op: "get", K: 0}}
+		}
+		h.Steps = append(h.Steps, Hop{Kind: "req", Client: 0, Create: g.IntN(4) == 0, Addr: addr, Agent: agent, Script: script})
+	}
+}
+
 func genHistory(g *rand.Rand, id int, seed uint64, family string) History {
 	s := &genState{g: g, cfg: genCfg(g), addrs: map[int]Addr{}, agents: map[int]int{}}
 	h := History{ID: id, Family: family, Seed: seed, Cfg: s.cfg, Tmpl: g.IntN(1728)}
+	if family == "hist" && g.IntN(4) == 0 {
+		steadyHistory(g, s, &h)
+		return h
+	}
 	n := 5 + g.IntN(36)
 	for i := 0; i < n; i++ {
 		switch x := g.IntN(100); {
